@@ -23,6 +23,10 @@ CURATED_TEXT = {
 'rec_tail_opt': "token L R N B C; start s; s: e C; e: L e R | N [B];",
 'rec_tail_plus_mid': "token L R N B; start s; s: e; e: N B+ | L e R;",
 'rec_tail_star_indirect': "token L R N B; start s; s: e; e: L f R | N B*; f: e;",
+'rec_loop_tail': "token L R C N B; start s; s: l; l: L (C l)* R | N [B];",
+'rec_opt_tail': "token L R C N B; start s; s: l; l: L [C l] R | N B*;",
+'rec_group_tail': "token L R C N B; start s; s: l; l: L (C l) R | N [B];",
+'rec_plus_tail_indirect': "token L R C N B; start s; s: l; l: L (C m)+ R | N [B]; m: l;",
 'list_sep': "token A C L R Ws; skip Ws; start s; s: l; l: L [x (C x)*] R; x: A | l;",
 'two_skips': "token A B C Ws Cm; skip Ws Cm; start s; s: (A B)* C;",
 # ---- parts
